@@ -15,14 +15,16 @@ static DROP_AT: [AtomicU64; MAX_TAGS] = [const { AtomicU64::new(0) }; MAX_TAGS];
 pub static BAD_TAG: AtomicU64 = AtomicU64::new(0);
 
 pub fn drops(tag: u32) -> u32 {
-    DROPS[tag as usize].load(Relaxed)
+    DROPS.get(tag as usize).map_or(0, |d| d.load(Relaxed))
 }
 pub fn clones(tag: u32) -> u32 {
-    CLONES[tag as usize].load(Relaxed)
+    CLONES.get(tag as usize).map_or(0, |d| d.load(Relaxed))
 }
 pub fn drop_at(tag: u32) -> u64 {
-    DROP_AT[tag as usize].load(Relaxed)
+    DROP_AT.get(tag as usize).map_or(0, |d| d.load(Relaxed))
 }
+/// Tags at or above this value are not tracked (very large buffers).
+pub const UNTRACKED: u32 = 1 << 24;
 static NEXT_BASE: AtomicU32 = AtomicU32::new(1);
 
 /// Reserves a block of `n` fresh tags (counters zeroed) and returns the first.
@@ -57,7 +59,7 @@ fn note_drop(tag: u32) {
     if (tag as usize) < MAX_TAGS {
         DROPS[tag as usize].fetch_add(1, Relaxed);
         DROP_AT[tag as usize].store(crate::wakers::now(), Relaxed);
-    } else {
+    } else if tag < UNTRACKED {
         BAD_TAG.fetch_add(1, Relaxed);
     }
 }
